@@ -152,7 +152,8 @@ def gen_gpx(rng, n, tier):
     out = []
     for _ in range(n):
         k = rng.randint(1, 5)
-        out.append({'srid': 'GEO', 'pts': [rand_xyz(rng, 'GEO') for _ in range(k)], 'T': [rand_time(rng) for _ in range(k)], 'ntracks': rng.choice([1, 1, 2])})
+        out.append({'srid': 'GEO', 'pts': [rand_xyz(rng, 'GEO') for _ in range(k)], 'T': [rand_time(rng) for _ in range(k)], 'ntracks': rng.choice([1, 1, 2]),
+                    'many': rng.random() < 0.3})          # one file per track (oneFile=False) into a directory
     return out
 
 
@@ -161,22 +162,43 @@ def run_gpx(case):
     from tracklib.io.track_writer import TrackWriter
     from tracklib.io.track_reader import TrackReader
     trs = [mk_track(case) for _ in range(case['ntracks'])]
-    path = os.path.join(scratch(), 'w.gpx')
-    TrackWriter.writeToGpx(TrackCollection(trs), path)
+    for i, t in enumerate(trs):
+        t.tid = 'k%d' % i
+    fmt0 = (ObsTime.getPrintFormat(), ObsTime.getReadFormat())
+    if case.get('many'):
+        d = os.path.join(scratch(), 'many'); shutil.rmtree(d, ignore_errors=True); os.makedirs(d)
+        TrackWriter.writeToGpx(TrackCollection(trs), d, oneFile=False)
+        paths = [os.path.join(d, 'k%d.gpx' % i) for i in range(len(trs))]
+    else:
+        path = os.path.join(scratch(), 'w.gpx')
+        TrackWriter.writeToGpx(TrackCollection(trs), path)
+        paths = [path]
+    fmt1 = (ObsTime.getPrintFormat(), ObsTime.getReadFormat())
+    # a CSV round trip in the same process, after the GPX export (the writers share the class-level time formats)
+    cpath = os.path.join(scratch(), 'after.csv')
+    TrackWriter.writeToFile(trs[0], cpath, 0, 1, 2, 3, ';', 0)
+    cback = TrackReader.readFromCsv(cpath, 0, 1, 2, 3, ';', h=0, srid='GEO')
+    os.remove(cpath)
     save = ObsTime.getReadFormat()
     ObsTime.setReadFormat("4Y-2M-2DT2h:2m:2sZ")
+    back = []
     try:
-        back = TrackReader.readFromGpx(path, srid='GEO')
+        for pth in paths:
+            b = TrackReader.readFromGpx(pth, srid='GEO')
+            back += [[[o.position.getX(), o.position.getY(), o.position.getZ(), o.timestamp.toAbsTime()] for o in b.getTrack(i)] for i in range(b.size())]
+            os.remove(pth)
     finally:
         ObsTime.setReadFormat(save)
-    os.remove(path)
-    return {'back': [[[o.position.getX(), o.position.getY(), o.position.getZ(), o.timestamp.toAbsTime()] for o in back.getTrack(i)] for i in range(back.size())],
-            'fmt_restored': ObsTime.getPrintFormat()}
+    return {'back': back, 'fmt0': list(fmt0), 'fmt1': list(fmt1), 'csv_after': [o.timestamp.toAbsTime() for o in cback]}
 
 
 def oracle_gpx(case, obs):
     if 'exc' in obs:
-        return 'GPX write / read raised %s' % obs['exc']
+        return 'GPX write / read raised %s %s' % (obs['exc'], obs.get('msg', ''))
+    if obs['fmt1'] != obs['fmt0']:
+        return 'writeToGpx(oneFile=%r) left the class-level time formats at %r (they were %r): later writes and reads in the same process no longer match' % (not case.get('many'), obs['fmt1'], obs['fmt0'])
+    if obs['csv_after'] != list(case['T']):
+        return 'a CSV round trip after the GPX export reads the timestamps %r back as %r' % (case['T'], obs['csv_after'])
     if len(obs['back']) != case['ntracks']:
         return 'wrote %d tracks, read back %d' % (case['ntracks'], len(obs['back']))
     for tr in obs['back']:
@@ -190,7 +212,7 @@ def oracle_gpx(case, obs):
 
 S_GPX = Stream(
     name='gpx', budget={'quick': 150, 'thorough': 4000},
-    rule='geographic tracks (1..5 observations, 1..2 tracks per file) written by writeToGpx and read by readFromGpx with the matching read format; oracle only (1e-8 degree, 1 mm, same second)',
+    rule='geographic tracks (1..5 observations, 1..2 tracks) written by writeToGpx into one file or one file per track (30 %) and read by readFromGpx with the matching read format, followed by a CSV round trip in the same process; oracle only (1e-8 degree, 1 mm, same second; class-level time formats restored)',
     imports='From Coq Require Import List.', case_type='unit', check_def='Definition ok (c : unit) : bool := true.',
     generate=gen_gpx, run_impl=run_gpx, coq_case=lambda c, o: None, oracle=oracle_gpx,
     nontrivial=lambda c, o: len(c['pts']) >= 2, klass=lambda c, o: 'tracks=%d' % c['ntracks'])
